@@ -267,6 +267,8 @@ impl fmt::Debug for ProguardRecordIter<'_> {
 impl<'s> Iterator for ProguardRecordIter<'s> {
     type Item = Result<ProguardRecord<'s>, ParseError<'s>>;
     fn next(&mut self) -> Option<Self::Item> {
+        // Line terminators left over after an unparseable line do not start another record.
+        self.slice = consume_leading_newlines(self.slice);
         if self.slice.is_empty() {
             return None;
         }
